@@ -273,6 +273,61 @@ fn verif_reassembler_write_reader_prework() {
     core::mem::forget(r);
 }
 
+// the READ side: pop_watermarked on a buffer holding ONE slot (8 allocated bytes, `n` of them
+// received, starting exactly at the read cursor): the application gets the received bytes in order
+// from the read cursor, at most `watermark` of them, each byte once (the cursor moves past them),
+// and nothing when the slot is not contiguous with the cursor.
+#[cfg_attr(kani, kani::proof)]
+#[cfg_attr(kani, kani::unwind(10))]
+fn verif_reassembler_pop_one_slot() {
+    let base: u64 = kani::any();
+    kani::assume(base <= MAX - 64);
+    let data: [u8; 8] = kani::any();
+    let n: usize = kani::any();
+    kani::assume(n >= 1 && n <= 8);
+    let mut slot = Slot::new(base, base + 8, BytesMut::with_capacity(8));
+    {
+        let mut req = Request::new(VarInt::new(base).unwrap(), &data[..n], false).unwrap();
+        let mut flag = false;
+        let r = slot.try_write_reader(&mut req, &mut flag);
+        assert!(matches!(r, Ok(None)));
+    }
+    // the read cursor is at the slot (contiguous data) or below it (a gap in front of the slot)
+    let gap: bool = kani::any();
+    kani::assume(!gap || base >= 1);
+    let start = if gap { base - 1 } else { base };
+    let fin_known: bool = kani::any();
+    let cursors = Cursors {
+        start_offset: start,
+        max_recv_offset: base + n as u64,
+        final_offset: if fin_known { base + n as u64 } else { UNKNOWN_FINAL_SIZE },
+    };
+    let mut slots = VecDeque::with_capacity(2);
+    slots.push_back(slot);
+    let mut r = Reassembler { slots, cursors };
+    let watermark: usize = kani::any();
+    kani::assume(watermark <= 16);
+    let got = r.pop_watermarked(watermark);
+    if gap || watermark == 0 {
+        assert!(got.is_none());
+        assert!(r.cursors.start_offset == start);
+        kani::cover!(gap, "nothing delivered across a gap");
+    } else {
+        let chunk = got.unwrap();
+        let want = core::cmp::min(n, watermark);
+        assert!(chunk.len() == want);
+        let k: usize = kani::any();
+        kani::assume(k < want);
+        assert!(chunk[k] == data[k]);
+        assert!(r.cursors.start_offset == base + want as u64);
+        assert!(r.consumed_len() == base + want as u64);
+        kani::cover!(want < n, "partial read limited by the watermark");
+        kani::cover!(want == n && fin_known, "last bytes of the stream read");
+        core::mem::forget(chunk);
+    }
+    core::mem::forget(r);
+}
+
 // ---- generated by tools/fixup.py: native replay entry ----
 #[cfg(not(kani))]
 #[test]
@@ -283,5 +338,6 @@ fn verif_replay() {
         ("verif_reassembler_allocate_slot", verif_reassembler_allocate_slot),
         ("verif_reassembler_write_stale_segment", verif_reassembler_write_stale_segment),
         ("verif_reassembler_write_reader_prework", verif_reassembler_write_reader_prework),
+        ("verif_reassembler_pop_one_slot", verif_reassembler_pop_one_slot),
     ]);
 }
